@@ -23,6 +23,7 @@ type PropConfig struct {
 	Inventory []InventoryRule   `json:"inventory"`
 	Assume    []string          `json:"assumptions"`
 	Bounded   []BoundedCheck    `json:"bounded"`
+	Impls     []ImplCheck       `json:"impls"`  // implementations to be checked against interface contracts
 	Replay    map[string]string `json:"replay"` // obligation-name regexp -> replay adapter
 	Notes     string            `json:"notes"`
 }
@@ -35,6 +36,12 @@ type InventoryRule struct {
 	Scope   string   `json:"scope"`   // only sites whose enclosing function name starts with / contains "(" + scope
 	Reason  string   `json:"reason"`
 	ExpectNone bool  `json:"expect_none"`
+}
+
+// ImplCheck: the method Impl ("<pkg rel>.(Recv).Name") must satisfy the interface contract Iface ("<pkg rel>.IFACE Iface.Method").
+type ImplCheck struct {
+	Iface string `json:"iface"`
+	Impl  string `json:"impl"`
 }
 
 type BoundedCheck struct {
@@ -206,6 +213,41 @@ func runCheck(id string, opts checkOpts) *checkResult {
 				seenCE[ce] = true
 				res.undecided = append(res.undecided, "clause not evaluable on some path: "+ce)
 			}
+		}
+		for _, o := range fr.Obls {
+			o.env = fr.Env
+		}
+		all = append(all, fr.Obls...)
+	}
+	// implementations against interface contracts (behavioural subtyping)
+	for _, ic := range cfg.Impls {
+		var ict *Contract
+		for _, ct := range cx.all {
+			if ct.IfaceType != "" && strings.HasPrefix(shortPkg(ct.PkgPath)+"."+ct.Key, ic.Iface) {
+				ict = ct
+			}
+		}
+		if ict == nil {
+			res.undecided = append(res.undecided, "no interface contract "+ic.Iface)
+			continue
+		}
+		recv, name, pkg := "", "", ""
+		if i := strings.Index(ic.Impl, ".("); i >= 0 {
+			pkg = ic.Impl[:i]
+			rest := ic.Impl[i+2:]
+			j := strings.Index(rest, ").")
+			recv, name = rest[:j], rest[j+2:]
+		}
+		fn := prog.lookupFunc(modPath+"/"+pkg, recv, name)
+		if fn == nil {
+			res.undecided = append(res.undecided, "implementation not found: "+ic.Impl)
+			continue
+		}
+		fr := verifyImpl(prog, cx, cfg, ict, fn, ic.Impl)
+		res.funcs = append(res.funcs, fr)
+		if fr.Err != nil {
+			res.undecided = append(res.undecided, fmt.Sprintf("%s: %v", ic.Impl, fr.Err))
+			continue
 		}
 		for _, o := range fr.Obls {
 			o.env = fr.Env
